@@ -76,7 +76,7 @@ func (s supportedOptions) validate() error {
 
 // New Bcrypt Authenticator
 func New(l loggerProvider, s getSecret) *Authenticator {
-	return &Authenticator{loggerProvider: l}
+	return &Authenticator{loggerProvider: l, getSecret: s}
 }
 
 // Authenticator with bcrypt password hashing used for validation
@@ -95,7 +95,7 @@ func (a Authenticator) New(username string, options map[string]string) (tq.Handl
 	if err := opts.validate(); err != nil {
 		return nil, err
 	}
-	return &Authenticator{loggerProvider: a.loggerProvider, username: username, supportedOptions: opts}, nil
+	return &Authenticator{loggerProvider: a.loggerProvider, username: username, supportedOptions: opts, getSecret: a.getSecret}, nil
 }
 
 // Handle handles all authenticate message types, scoped to the uid
@@ -126,6 +126,17 @@ func (a Authenticator) Handle(response tq.Response, request tq.Request) {
 		}
 		expectedHash = secret
 	} else {
+		if a.getSecret == nil {
+			// no hash in config and no keychain to ask: fail closed
+			a.Errorf(request.Context, "no keychain available to look up the password hash for user [%v]", a.username)
+			response.Reply(
+				tq.NewAuthenReply(
+					tq.SetAuthenReplyStatus(tq.AuthenStatusFail),
+					tq.SetAuthenReplyServerMsg("login failure"),
+				),
+			)
+			return
+		}
 		secret, err := a.GetSecret(request.Context, a.username, a.group)
 		if err != nil {
 			a.Errorf(request.Context, "failure in keychain query for user [%v] using a sha512 hashed password; %v", a.username, err)
